@@ -10,6 +10,7 @@ import (
 	"fmt"
 	logslog "log/slog"
 	"math"
+	"sort"
 	"strconv"
 	"strings"
 	"time"
@@ -37,6 +38,14 @@ type c15case struct {
 	Level2   int      `json:"level2,omitempty"`             // L4c: level of the logger at the time of the second derivation
 	Format2  string   `json:"format2,omitempty"`            // L4c: format of the logger at the time of the second derivation
 }
+
+// reentFn is a Stringer that does something (logs) before it returns its text.
+type reentFn struct {
+	f func()
+	s string
+}
+
+func (r reentFn) String() string { r.f(); return r.s }
 
 type lvValuer struct{ v logslog.Value }
 
@@ -508,6 +517,33 @@ func c15eval(cas c15case) *Violation {
 		}
 		return nil
 	}
+	if cas.Layer == "L4d-reentrant" {
+		// one derived handler with a bound attribute handles a record one of whose values, while it is being
+		// formatted, hands another record to the same handler: both records must come out whole
+		hd := w.h.WithAttrs([]logslog.Attr{logslog.Int("a0", 11)})
+		inner := logslog.NewRecord(tsZone, logslog.LevelWarn, "inner", 0)
+		inner.AddAttrs(logslog.String("x", "ex"), logslog.Int("y", 2), logslog.Int("z", 3))
+		outer := logslog.NewRecord(tsZone, logslog.LevelError, msg, 0)
+		outer.AddAttrs(logslog.Int("b", 1), logslog.Any("c", reentFn{func() { _ = hd.Handle(ctx, inner) }, "sea"}), logslog.Int("d", 4), logslog.String("e", "end"))
+		if pan := catch(func() { _ = hd.Handle(ctx, outer) }); pan != "" {
+			return mk("call-returns", firstLine(pan))
+		}
+		if len(w.rec.events) != 2 {
+			return mk("emitted-once", fmt.Sprintf("%d records for an outer and an inner record", len(w.rec.events)))
+		}
+		for i, want := range [][]string{{"a0", "x", "y", "z"}, {"a0", "b", "c", "d", "e"}} {
+			r, e := c15decode(w.rec.events[i].Payload, cas.Format)
+			if e != "" {
+				return mk("decodable", e)
+			}
+			sort.Strings(r.keys)
+			if fmt.Sprint(r.keys) != fmt.Sprint(want) {
+				return mk("record-attrs", fmt.Sprintf("record %d (%s) carries the attributes %v, expected %v: %.250q", i, []string{"inner", "outer"}[i], r.keys, want, w.rec.events[i].Payload))
+			}
+		}
+		c15last = w.rec.events[1].Payload
+		return nil
+	}
 	if cas.Layer == "L4b-siblings" {
 		// two handlers derived from the SAME parent (which itself is the third link of a chain): neither may disturb the other
 		hA := h.WithAttrs([]logslog.Attr{logslog.String("req", "A")})
@@ -736,6 +772,10 @@ func c15cases(thorough bool, emit func(c15case)) {
 				}
 			}
 		}
+	}
+	// L4d: a value that re-enters the handler while its record is being formatted
+	for _, f := range formats {
+		emit(c15case{Layer: "L4d-reentrant", Format: f, LogLevel: int(slog.TraceLevel), SlogLvl: 8, Via: "Handle"})
 	}
 	// L4b: sibling handlers derived from one parent
 	for _, ch := range chains {
